@@ -67,7 +67,7 @@ void escape(char const *begin,char const *end,std::ostream &output)
 }
 
 template<typename Iterator>
-void urlencode_impl(char const *b,char const *e,Iterator out)
+Iterator urlencode_impl(char const *b,char const *e,Iterator out)
 {
 	while(b!=e){
 		char c=*b++;
@@ -97,6 +97,7 @@ void urlencode_impl(char const *b,char const *e,Iterator out)
 			};
 		}
 	};
+	return out;
 }
 
 void urlencode(char const *b,char const *e,std::ostream &out)
@@ -108,7 +109,7 @@ void urlencode(char const *b,char const *e,std::ostream &out)
 int urlencode(char const *b,char const *e,std::streambuf &out)
 {
 	std::ostreambuf_iterator<char> it(&out);
-	urlencode_impl(b,e,it);
+	it = urlencode_impl(b,e,it);	// the iterator is passed by value: failed() of the copy that did the writing
 	if(it.failed())
 		return -1;
 	return 0;
